@@ -288,6 +288,8 @@ class Emitter:
         s.fn_names = {}
         s.strid = 0
         s.ov_helpers = set()
+        s.mem_uses = set()
+        s.fn_mem = {}
     # ---- C type names
     def cty(s, ty):
         if isinstance(ty, IntTy):
@@ -812,6 +814,7 @@ class Emitter:
         if name.startswith(('llvm.lifetime.', 'llvm.dbg.', 'llvm.experimental.noalias.scope.decl', 'llvm.assume',
                             'llvm.invariant.', 'llvm.prefetch')):
             return None
+        if name.startswith(('llvm.memcpy.', 'llvm.memmove.', 'llvm.memset.')): s.mem_uses.add(name.split('.')[1])
         if name.startswith('llvm.memcpy.'): return 'vrt_memcpy((uint8_t*)%s, (uint8_t*)%s, %s)' % (args[0], args[1], args[2])
         if name.startswith('llvm.memmove.'): return 'vrt_memmove((uint8_t*)%s, (uint8_t*)%s, %s)' % (args[0], args[1], args[2])
         if name.startswith('llvm.memset.'): return 'vrt_memset((uint8_t*)%s, %s, %s)' % (args[0], args[1], args[2])
@@ -836,7 +839,9 @@ def translate(text, keep=None, want_info=False):
     em = Emitter(m)
     fbodies = []
     for name, f in m.funcs.items():
+        em.mem_uses = set()
         fbodies.append(em.emit_func(f))
+        em.fn_mem[name] = sorted(em.mem_uses)
     # globals
     glines = ['/* ---- globals ---- */']
     for name, (ty, init, const, tls) in m.globals.items():
@@ -903,7 +908,7 @@ def translate(text, keep=None, want_info=False):
                         if n in known: refs.add(n)
         cg[name] = sorted(refs)
     mut = [name for name, (ty, init, const, tls) in m.globals.items() if not const and not tls]
-    info = {'defined': list(m.funcs), 'declared': [d for d in m.decls if not d.startswith('llvm.')], 'callgraph': cg,
+    info = {'fn_mem': em.fn_mem, 'defined': list(m.funcs), 'declared': [d for d in m.decls if not d.startswith('llvm.')], 'callgraph': cg,
             'mutable_globals': mut, 'tls_globals': [n for n, g in m.globals.items() if g[3]]}
     return csrc, info
 
